@@ -13,7 +13,7 @@ d=$(mktemp -d /tmp/mut.XXXXXX)
 trap 'rm -rf "$d"' EXIT INT TERM
 mkdir -p "$d/repo" "$d/verif" /verif/.work/mut-replays
 rsync -a --exclude /target --exclude node_modules /repo/ "$d/repo/"
-rsync -a --exclude /.work --exclude /replays --exclude /.git /verif/ "$d/verif/"
+rsync -a --exclude /.work --exclude /replays --exclude /.git --exclude /harness/target/debug/incremental /verif/ "$d/verif/"
 mkdir -p "$d/verif/.work" "$d/verif/replays"
 if [ "$patch" != "-" ]; then
   ( cd "$d/repo" && git apply "$patch" ) || { echo "mutcheck: patch does not apply"; exit 3; }
